@@ -29,6 +29,7 @@ import (
 
 type ReplayFile struct {
 	Property  string         `json:"property"`
+	RegProp   string         `json:"strata_of_property,omitempty"` // property whose registered strata the run belongs to (differs from Property only in dev mode)
 	Stratum   string         `json:"stratum"`
 	StratumIx int            `json:"stratum_index"`
 	Seed      uint64         `json:"seed"`
@@ -198,11 +199,16 @@ func TestWorker(t *testing.T) {
 					mine = &res.Viol[k]
 				}
 			}
+			if mine == nil && os.Getenv("VERIF_ANYPROP") != "" && !known[key] {
+				mine = &res.Viol[k] // dev mode: stop at the first unknown violation of any property
+			}
 		}
 		if mine != nil {
 			// minimise, write the replay file, stop
 			rf := minimise(t, prop, st, stIdx, res, *mine, minBudget)
 			rf.Seed, rf.Worker, rf.Run = seed, worker, runIdx
+			rf.RegProp = prop
+			rf.Property = mine.Prop
 			path := writeReplay(rf)
 			out.Violation = mine
 			out.Replay = path
@@ -254,7 +260,7 @@ func minimise(t *testing.T, prop string, st Stratum, stIdx int, res *RunResult, 
 		if r.HarnessErr != "" {
 			return false
 		}
-		if hasSig(r, prop, v.Sig) != nil {
+		if hasSig(r, v.Prop, v.Sig) != nil {
 			// keep only what was consumed
 			used := r.Tape
 			if len(used) > len(cand) {
@@ -318,7 +324,7 @@ func minimise(t *testing.T, prop string, st Stratum, stIdx int, res *RunResult, 
 		best = best[:len(best)-1]
 	}
 	vv := v
-	if w := hasSig(bestRes, prop, v.Sig); w != nil {
+	if w := hasSig(bestRes, v.Prop, v.Sig); w != nil {
 		vv = *w
 	}
 	return mkReplay(prop, st, stIdx, bestRes, vv, best, len(res.Tape), runs)
@@ -355,13 +361,17 @@ func replayMain(t *testing.T, path string) {
 		fmt.Printf("HARNESS-ERROR bad replay file: %v\n", err)
 		os.Exit(2)
 	}
-	ss := registry[rf.Property]
+	regp := rf.RegProp
+	if regp == "" {
+		regp = rf.Property
+	}
+	ss := registry[regp]
 	if rf.StratumIx >= len(ss) || ss[rf.StratumIx].Name != rf.Stratum {
 		fmt.Printf("HARNESS-ERROR replay stratum %q not found\n", rf.Stratum)
 		os.Exit(2)
 	}
 	LogAll = true
-	res := ExecRun(t, rf.Property, ss[rf.StratumIx], rf.StratumIx, simrt.ReplayTape(rf.Tape), os.Getenv("VERIF_TRACE") != "")
+	res := ExecRun(t, regp, ss[rf.StratumIx], rf.StratumIx, simrt.ReplayTape(rf.Tape), os.Getenv("VERIF_TRACE") != "")
 	out := map[string]any{"property": rf.Property, "expected": rf.Signature, "harness_error": res.HarnessErr, "steps": res.Steps}
 	var sigs []string
 	for _, v := range res.Viol {
